@@ -8,7 +8,9 @@ import random
 from . import frames_gen as G
 
 PROP = "C10"
-KINDS = {"main": G.KIND_EXTRACT}
+# second oracle in the same Eval: the reference interpretation (M_FramesRef.ref_extract) vs the implementation
+KINDS = {"main": dict(G.KIND_EXTRACT, imports="From SS Require Import Base M_Frames M_FramesRef.",
+                      mismatch="mismatches2")}
 RULE = ("rank-ordered (acyclic) random unwrap/elaborate tables over 5 objects x 5 frames with result alphabets "
         "{None, item, tuple, list, iterator(+raise), raise, empty} x {None, PRUNE, replace, insert-before, single item, raise}, "
         "plus linear chains around the 100-step guard and a self-loop; thorough adds the exhaustive small scope "
@@ -16,12 +18,29 @@ RULE = ("rank-ordered (acyclic) random unwrap/elaborate tables over 5 objects x 
 SHARD = 250
 CONFIG = dict(
     coq=["C10"], level="proof",
-    claim=("Coq theorems about an executable model of extract_iter (all hook tables), tied to the code by differential "
-           "comparison evaluated inside Coq on generated hook tables run through the real extract()."),
+    claim=("Coq theorems (all hook tables, all roots, all fuel values) that the executable model of extract_iter "
+           "(M_Frames.run/extract, the functions the cases evaluate) returns exactly the result of an independent, "
+           "deterministic big-step reference interpretation of the documented unwrap/elaborate rules (M_FramesRef.Ref: "
+           "None / item / sequence / iterator unwrapping with the 100-step progress guard; keep / PRUNE / replace / "
+           "insert-before with depth bookkeeping; leaf rule), plus per-rule theorems (prune removes exactly the maximal "
+           "following run with depth >= d, replace, insert, all-None = flattening, raising iterator keeps its prefix, "
+           "guard for the regenerated constant). Tied to the code by differential comparison evaluated inside Coq on "
+           "generated hook tables run through the real extract(): each case is compared with BOTH the model and the "
+           "executable reference (ref_run, proved sound for Ref)."),
     design_ref="DESIGN.md section 5 C10",
-    trusted_base=["model M_Frames.v (extract_iter) is hand-written; hook behaviour is abstracted to finite stateless tables"],
+    trusted_base=["model M_Frames.v (extract_iter) is hand-written; hook behaviour is abstracted to finite stateless tables",
+                  "reference interpretation M_FramesRef.v is the formal reading of the hook documentation (incl. the min-depth rule "
+                  "for next_inner in the insert form, /repo commit 448262b)"],
     assumptions=["hook results are tuples/lists/FrameIterators of frames and objects; hooks are deterministic",
-                 "unwrap tables are rank-ordered (acyclic) apart from the linear self-loop (a branching cyclic unwrap does not terminate and is outside 'item trees')"],
+                 "unwrap tables are rank-ordered (acyclic) apart from the linear self-loop (a branching cyclic unwrap does not terminate and is outside 'item trees')",
+                 "theorem domain `plain`: no injected faults, with_contexts=False, the three hook call sites guarded (guards regenerated from source: C10_guards_regenerated)"],
+    unproved_legs=["fuel sufficiency for rank-ordered tables is not proved in general (C10_model_eq_ref is conditional on extract <> OutOfFuel; "
+                   "the cases never return OutOfFuel - an OutOfFuel model result would show as a mismatch); it is proved for the guard chain (C10_guard_any_fuel)",
+                   "C10_prefix_local of the design is not stated separately (it follows from C10_frame_rule: the continuation depends only on the edited sequence)",
+                   "contexts / faults / origins are outside these theorems (C05, C16)"],
+    NOTES=("Deviation from DESIGN: the reference re-unwraps the re-queued rest after a replace/insert (as the code does: a leaf whose hook raises "
+           "reports its error again, an item stopped by the guard may unwrap further), so model=reference holds without side conditions; "
+           "insert form: next_inner's depth becomes min(d, own) per /repo 448262b instead of 'untouched'."),
 )
 
 
